@@ -63,6 +63,8 @@ class NT(NamedTuple):
     b: B
 TB = TypeVar("TB", bound=A)
 class BoundG(Generic[TB]): pass
+class Factory(Protocol):
+    def __call__(self) -> A: ...
 class WithCall:
     def __call__(self, a: A) -> B: raise NotImplementedError
 def f_opt(a: A, b: B = ...) -> A: raise NotImplementedError
@@ -130,7 +132,7 @@ EXTRA = [
     "str", "Literal['a']", "Sequence[str]", "Tuple[str, ...]", "int | str", "Literal['a'] | int", "Tuple[int, str]",
     "Callable[[int], str]", "P", "PI", "P2", "PX", "PG[A]", "PG[B]", "GA", "GB", "Color", "Literal[Color.R]", "Literal[Color.G]",
     "Literal[Color.R] | Literal[Color.G]", "bool", "Literal[True]", "Literal[True] | Literal[False]", "float",
-    "int | float", "TD", "TD2", "TDopt", "NT", "BoundG[B]", "BoundG[A]", "WithCall", "Type[Color]",
+    "int | float", "TD", "TD2", "TDopt", "NT", "BoundG[B]", "BoundG[A]", "WithCall", "Factory", "Type[Color]",
     "Type[NT]", "Mapping[str, A]", "Mapping[str, B]", "Iterable[A]", "Iterable[B]",
     "Tuple[A, Unpack[Tuple[B, ...]]]", "Tuple[Unpack[Tuple[A, ...]], B]", "Tuple[A, Unpack[Tuple[A, ...]], B]",
     "Tuple[bool, int]", "Tuple[int, int]", "Co[float]", "Co[bool]", "Inv[int]", "Inv[float]", "Cn[float]", "Cn[int]",
@@ -140,5 +142,81 @@ EXTRA = [
 EXTRA_FUNCS = ["f_opt", "f_star", "f_kw", "f_kwopt", "f_star2", "f_all", "f_named", "f_named2"]
 
 
-def source(annotations: list[str]) -> str:
-    return PRELUDE + "\n".join(f"v{i}: {a}" for i, a in enumerate(annotations)) + "\n"
+def source(annotations: list[str], extra: str = "") -> str:
+    return PRELUDE + extra + "\n".join(f"v{i}: {a}" for i, a in enumerate(annotations)) + "\n"
+
+
+# ---------------------------------------------------------------------------- callables over all argument kinds
+# (search only).  Kinds: po positional-only, pk positional-or-keyword, ok optional positional-or-keyword,
+# va *args, ko keyword-only, oko optional keyword-only, kw **kwargs.  The i-th parameter is called x / y / z, so
+# that the same name occurs with different kinds across the family (by-name matching against **kwargs etc.).
+KINDS = ["po", "pk", "ok", "va", "ko", "oko", "kw"]
+PNAMES = ["x", "y", "z"]
+_RANK = {"po": 0, "pk": 1, "ok": 1, "va": 2, "ko": 3, "oko": 3, "kw": 4}
+
+
+def valid_kinds(ks: tuple[str, ...]) -> bool:
+    ranks = [_RANK[k] for k in ks]
+    if ranks != sorted(ranks) or ks.count("va") > 1 or ks.count("kw") > 1:
+        return False
+    seen_opt = False
+    for k in ks:
+        if k == "ok":
+            seen_opt = True
+        elif k in ("po", "pk") and seen_opt:
+            return False
+    return True
+
+
+def render_sig(ks: tuple[str, ...], ts: tuple[str, ...]) -> str:
+    """Parameter list of a def with the given kinds and parameter types."""
+    parts: list[str] = []
+    star_done = False
+    for i, (k, t) in enumerate(zip(ks, ts)):
+        n = PNAMES[i]
+        if k == "po":
+            parts.append(f"{n}: {t}")
+            if i + 1 == len(ks) or ks[i + 1] != "po":
+                parts.append("/")
+        elif k == "pk":
+            parts.append(f"{n}: {t}")
+        elif k == "ok":
+            parts.append(f"{n}: {t} = ...")
+        elif k == "va":
+            parts.append(f"*args: {t}")
+            star_done = True
+        elif k in ("ko", "oko"):
+            if not star_done:
+                parts.append("*")
+                star_done = True
+            parts.append(f"{n}: {t}" + (" = ..." if k == "oko" else ""))
+        else:
+            parts.append(f"**kw: {t}")
+    return ", ".join(parts)
+
+
+def callable_family(rng, thorough: bool) -> list[tuple[str, str]]:
+    """[(universe name, def source)]: all 1-parameter signatures over 3 types, all valid 2-parameter kind pairs over
+    {A, B} (thorough: over 3 types), a random sample of 3-parameter ones."""
+    import itertools
+    sigs: list[tuple[tuple[str, ...], tuple[str, ...]]] = []
+    for k in KINDS:
+        for t in ("A", "B", "int"):
+            sigs.append(((k,), (t,)))
+    types2 = ("A", "B", "int") if thorough else ("A", "B")
+    for ks in itertools.product(KINDS, repeat=2):
+        if valid_kinds(ks):
+            for ts in itertools.product(types2, repeat=2):
+                sigs.append((ks, ts))
+    k3 = [ks for ks in itertools.product(KINDS, repeat=3) if valid_kinds(ks)]
+    for _ in range(260 if thorough else 30):
+        sigs.append((rng.choice(k3), tuple(rng.choice(("A", "B", "int")) for _ in range(3))))
+    out, seen = [], set()
+    for ks, ts in sigs:
+        sig = render_sig(ks, ts)
+        if sig in seen:
+            continue
+        seen.add(sig)
+        fname = f"g{len(out)}"
+        out.append((f"def ({sig})", f"def {fname}({sig}) -> A: raise NotImplementedError\n"))
+    return out
